@@ -718,7 +718,7 @@ def make_jobs(tier, seed, build):
     for gname in DOC_GRAMMARS:
         for fmt in DOC_FORMATS:
             jobs.append({"id": "doc:%s:%s" % (fmt, gname), "kind": "doc", "grammar": gname, "fmt": fmt})
-    nsh = 12
+    nsh = 13
     for fmt in ("md", "html"):
         for depth, budget, nest in ((1, 1, 1), (2, 1, 1)) if tier == "quick" else ((1, 1, 1), (2, 1, 1), (2, 2, 1)):
             for a in range(nsh):
